@@ -142,19 +142,37 @@ func genLarge(c largeCase) []byte {
 	return []byte(sb.String())
 }
 
-func largeSettings(forced bool) []setting {
-	if forced {
-		// only the builder depends on runtime.NumCPU()
-		return []setting{{B: dnsfix.RDBv1, W: 1, Bld: true}, {B: dnsfix.RDBv1, W: 3, Bld: true}, {B: dnsfix.RDBv2, W: 2, Bld: true}}
+// largeSettings: a builder compile of a 60 000-line file costs about ten
+// CPU-seconds in this harness (see exec.go), so the host-CPU cases get CDB, two
+// batch settings and the builder with both key layouts (quick, few files) or
+// with one, alternating with the case ordinal (thorough), and the forced-CPU
+// cases - which exist only for the builder's last-bucket branch - get one
+// builder setting, alternating.
+func largeSettings(c largeCase, thorough bool) []setting {
+	if c.Forced {
+		if c.Ordinal%2 == 0 {
+			return []setting{{B: dnsfix.RDBv1, W: 1 + (c.Ordinal/2)%3, Bld: true}}
+		}
+		return []setting{{B: dnsfix.RDBv2, W: 1 + (c.Ordinal/2)%3, Bld: true}}
 	}
-	return []setting{
-		{B: dnsfix.CDB, W: 3},
-		{B: dnsfix.RDBv1, W: 1, Bld: true}, {B: dnsfix.RDBv1, W: 3, Bld: true}, {B: dnsfix.RDBv2, W: 2, Bld: true},
-		{B: dnsfix.RDBv1, W: 2, BSize: 0, BPar: 1}, {B: dnsfix.RDBv2, W: 3, BSize: 20000, BPar: 2},
+	out := []setting{{B: dnsfix.CDB, W: 3}, {B: dnsfix.RDBv1, W: 2, BSize: 0, BPar: 1}, {B: dnsfix.RDBv2, W: 3, BSize: 20000, BPar: 2}}
+	v1, v2 := setting{B: dnsfix.RDBv1, W: 1 + c.Ordinal%3, Bld: true}, setting{B: dnsfix.RDBv2, W: 1 + (c.Ordinal+1)%3, Bld: true}
+	switch {
+	case !thorough: // few files: both key layouts
+		out = append(out, v1, v2)
+	case c.Ordinal%2 == 0:
+		out = append(out, v1)
+	default:
+		out = append(out, v2)
 	}
+	return out
 }
 
-func largeInputs(r *vlib.Run, p *pool) {
+// largeInputs prepares part (b) (sequentially, may touch r), and returns the
+// compute step (runs concurrently with the other parts, never touches r) and
+// the record step (sequential again).
+func largeInputs(r *vlib.Run, p *pool) (compute func(), record func()) {
+	nop := func() {}
 	minBucket, how := minBucketSizeOfRepo()
 	host := runtime.NumCPU()
 	type group struct {
@@ -171,7 +189,6 @@ func largeInputs(r *vlib.Run, p *pool) {
 			r.Exhaustive = false
 		}
 	}
-	sub := r.Pick(13, 1) // quick: every 13th grid point (13 is coprime to every loop length of the grid)
 	var all, chosen []largeCase
 	infeasible := 0
 	for _, g := range groups {
@@ -180,102 +197,148 @@ func largeInputs(r *vlib.Run, p *pool) {
 		for _, c := range cs {
 			c.Ordinal = len(all)
 			all = append(all, c)
-			// quick: the 1-in-sub sub-grid plus every case with delta=+1 whose run lies across the cut
-			if c.Ordinal%sub == 0 || (c.Delta == 1 && c.straddles()) {
-				chosen = append(chosen, c)
-			}
-		}
-	}
-	if sub != 1 {
-		r.Exhaustive = false
-		r.Note("part (b): quick tier runs the deterministic 1-in-%d sub-grid plus the delta=+1 cases whose run of equal keys lies across a cut (%d of %d large files); thorough runs all", sub, len(chosen), len(all))
-	}
-
-	var st smallStats
-	var straddling, reportedN int64
-	described := 0
-	fails := make([]map[string]verdict, len(chosen))
-	// Files are generated and run in groups of eight with the same CPU
-	// restriction (bounded memory); inside a group every builder compile gets a
-	// child of its own and the remaining settings of a file share one child.
-	for lo := 0; lo < len(chosen); {
-		hi := lo
-		for hi < len(chosen) && hi-lo < 8 && chosen[hi].Forced == chosen[lo].Forced && chosen[hi].NCPU == chosen[lo].NCPU {
-			hi++
-		}
-		sets := largeSettings(chosen[lo].Forced)
-		pl := plan{BuilderPerChild: 1, BuilderGCOff: true, OtherPerChild: len(sets)}
-		if chosen[lo].Forced {
-			pl.NCPU = chosen[lo].NCPU
-		}
-		jobs := make([]execJob, hi-lo)
-		refs := make([]map[dnsfix.Backend]refSummary, hi-lo)
-		var mu sync.Mutex
-		for k := range refs {
-			refs[k] = map[dnsfix.Backend]refSummary{}
-		}
-		vlib.ParallelFor(hi-lo, func(k int) {
-			jobs[k] = execJob{ID: lo + k, Text: genLarge(chosen[lo+k]), Settings: sets}
-		})
-		nb := len(dnsfix.Backends)
-		vlib.ParallelFor((hi-lo)*nb, func(x int) { // the sequential codec, once per (file, backend)
-			k, b := x/nb, dnsfix.Backends[x%nb]
-			used := false
-			for _, s := range sets {
-				used = used || s.B == b
-			}
-			if !used {
-				return
-			}
-			rs := summarize(reference(jobs[k].Text, b))
-			mu.Lock()
-			refs[k][b] = rs
-			mu.Unlock()
-		})
-		out := p.run(jobs, pl)
-		for k := range jobs {
-			fails[lo+k] = verdictsOf(jobs[k].Text, sets, out[k], refs[k], &st)
-			for _, key := range sortedKeys(fails[lo+k]) {
-				if v := fails[lo+k][key]; v.Diff && described < 12 {
-					described++
-					v.Info += ": " + p.describe(jobs[k].Text, v.Set, pl.NCPU)
-					fails[lo+k][key] = v
+			switch {
+			case r.Thorough():
+				// everything with the host's CPUs; the forced-CPU groups without the r=3 runs
+				if !c.Forced || c.R <= 2 {
+					chosen = append(chosen, c)
+				}
+			default:
+				// quick: delta=+2 (where most run positions are feasible): the file
+				// without a run, and the run of two keys lying across each cut
+				if c.Delta == 2 && (c.R == 1 || (c.R == 2 && c.straddles())) {
+					chosen = append(chosen, c)
 				}
 			}
-			if chosen[lo+k].straddles() {
-				straddling++
+		}
+	}
+	if f := os.Getenv("C07_DEBUG_LARGE"); f != "" { // diagnostics only: cases of this tier whose name contains f
+		var keep []largeCase
+		for _, c := range chosen {
+			if strings.Contains(c.Name(), f) {
+				keep = append(keep, c)
 			}
 		}
-		lo = hi
+		chosen = keep
+		r.Exhaustive = false
+		r.Note("DIAGNOSTIC RUN: large files restricted to names containing %q", f)
 	}
-	for i, c := range chosen {
-		if c.straddles() || c.Delta != 0 {
-			r.Sample(map[string]interface{}{"large_file": c.Name(), "records": c.N, "cpus": c.NCPU, "bucket_size": c.BSize,
-				"run_positions": fmt.Sprintf("[%d,%d)", c.Start, c.Start+c.R), "nominal_cut": c.J * c.BSize, "straddles_cut": c.straddles()})
-		}
-		for _, key := range sortedKeys(fails[i]) {
-			reportedN++
-			r.Violate(key+"/"+c.Name(), fmt.Sprintf("large file %s: %d records, %d CPUs (max buckets), bucket size %d, run of %d equal keys at sorted positions [%d,%d), nominal cut %d: %s",
-				c.Name(), c.N, c.NCPU, c.BSize, c.R, c.Start, c.Start+c.R, c.J*c.BSize, fails[i][key].Info),
-				map[string]interface{}{"case": c, "setting": key[strings.Index(key, "/")+1:], "generator": "genLarge in /verif/harness/c07/inputs_large.go"})
+	if len(chosen) != len(all) {
+		r.Exhaustive = false
+		if r.Thorough() {
+			r.Note("part (b): thorough runs the whole grid for the host's CPU count and the grid without the r=3 runs for the forced CPU counts (%d of %d large files)", len(chosen), len(all))
+		} else {
+			r.Note("part (b): quick tier runs a deterministic slice of the grid: delta=+2, no run or the run of two equal keys lying across a cut (%d of %d large files); thorough runs the grid", len(chosen), len(all))
 		}
 	}
 
-	r.Add("states", int64(len(chosen)))
-	r.Add("transitions", st.compiles)
-	r.Add("traces_validated_against_impl", st.compiles)
-	r.Add("evaluations", st.dumpChecks+st.rejectChecks+st.crossChecks)
-	r.Add("distinct_nontrivial", straddling)
-	r.Set("large_min_bucket_size", minBucket)
-	r.Set("large_min_bucket_size_source", how)
-	r.Set("large_host_cpus", host)
-	r.Set("large_grid_points", len(all))
-	r.Set("large_grid_points_run", len(chosen))
-	r.Set("large_grid_points_infeasible", infeasible)
-	r.Set("large_grid_subsampling", fmt.Sprintf("every %d-th grid point, plus delta=+1 cases with the run across the cut", sub))
-	r.Set("large_grid_exhaustive", sub == 1)
-	r.Set("large_compiles", st.compiles)
-	r.Set("large_cases_with_run_across_cut", straddling)
-	addRule(fmt.Sprintf("(b) large files: N = %d*k + delta records (delta -2..+2), all keys distinct except a run of r in {1,2,3} equal keys ending o in -2..+2 records after the j-th nominal bucket cut (j = 1..k), written in scattered order; k in {1,2} with the host's %d CPUs (up to 3 buckets, 6 settings: CDB, 3 x builder, batches with default size and with size 20000), and k = c with the compiling subprocess restricted to c in {2,3} CPUs so that the loader's last-bucket branch is taken (3 builder settings). %d grid points (%d more are infeasible: the run would leave the data), %d run in this tier. Oracle as in (a). Non-trivial = the nominal cut falls strictly inside the run of equal keys.",
-		minBucket, host, len(all), infeasible, len(chosen)))
+	if os.Getenv("C07_DEBUG_PLAN") != "" { // diagnostics only
+		cells, str := 0, 0
+		for _, c := range chosen {
+			cells += len(largeSettings(c, r.Thorough()))
+			if c.straddles() {
+				str++
+			}
+		}
+		fmt.Fprintf(os.Stderr, "c07 plan: large: %d of %d grid points (%d infeasible), %d compiles, %d with the run across a cut\n", len(chosen), len(all), infeasible, cells, str)
+		r.Exhaustive = false
+		return nop, nop
+	}
+	var st smallStats
+	var straddling, reportedN int64
+	fails := make([]map[string]verdict, len(chosen))
+	// Files are generated and run in groups of at most 16 with the same CPU
+	// restriction; the groups run concurrently (the pool bounds the number of
+	// children). Every builder compile gets a child of its own and the
+	// remaining settings of a file share one child.
+	type span struct{ lo, hi int }
+	var spans []span
+	for lo := 0; lo < len(chosen); {
+		hi := lo
+		for hi < len(chosen) && hi-lo < 16 && chosen[hi].Forced == chosen[lo].Forced && chosen[hi].NCPU == chosen[lo].NCPU {
+			hi++
+		}
+		spans = append(spans, span{lo, hi})
+		lo = hi
+	}
+	var mu sync.Mutex
+	thorough := r.Thorough()
+	compute = func() {
+		vlib.ParallelFor(len(spans), func(g int) {
+			lo, hi := spans[g].lo, spans[g].hi
+			pl := plan{BuilderPerChild: 1, BuilderGCOff: true, OtherPerChild: 3}
+			if chosen[lo].Forced {
+				pl.NCPU = chosen[lo].NCPU
+			}
+			jobs := make([]execJob, hi-lo)
+			refs := make([]map[dnsfix.Backend]refSummary, hi-lo)
+			for k := range jobs {
+				jobs[k] = execJob{ID: lo + k, Text: genLarge(chosen[lo+k]), Settings: largeSettings(chosen[lo+k], thorough)}
+				refs[k] = map[dnsfix.Backend]refSummary{}
+				for _, s := range jobs[k].Settings { // the sequential codec, once per (file, backend)
+					if _, ok := refs[k][s.B]; !ok {
+						refs[k][s.B] = summarize(reference(jobs[k].Text, s.B))
+					}
+				}
+			}
+			out := p.run(jobs, pl)
+			var ls smallStats
+			describedHere := 0 // textual diffs are costly: the first two mismatches of a group get one
+			for k := range jobs {
+				f := verdictsOf(jobs[k].Text, jobs[k].Settings, out[k], refs[k], &ls)
+				for _, key := range sortedKeys(f) {
+					if f[key].Diff && describedHere < 2 {
+						describedHere++
+						v := f[key]
+						v.Info += ": " + p.describe(jobs[k].Text, v.Set, pl.NCPU)
+						f[key] = v
+					}
+				}
+				mu.Lock()
+				fails[lo+k] = f
+				if chosen[lo+k].straddles() {
+					straddling++
+				}
+				mu.Unlock()
+			}
+			mu.Lock()
+			st.compiles += ls.compiles
+			st.dumpChecks += ls.dumpChecks
+			st.rejectChecks += ls.rejectChecks
+			st.crossChecks += ls.crossChecks
+			mu.Unlock()
+		})
+	}
+	record = func() {
+		for i, c := range chosen {
+			if c.straddles() || c.Delta != 0 {
+				r.Sample(map[string]interface{}{"large_file": c.Name(), "records": c.N, "cpus": c.NCPU, "bucket_size": c.BSize,
+					"run_positions": fmt.Sprintf("[%d,%d)", c.Start, c.Start+c.R), "nominal_cut": c.J * c.BSize, "straddles_cut": c.straddles()})
+			}
+			for _, key := range sortedKeys(fails[i]) {
+				reportedN++
+				r.Violate(key+"/"+c.Name(), fmt.Sprintf("large file %s: %d records, %d CPUs (max buckets), bucket size %d, run of %d equal keys at sorted positions [%d,%d), nominal cut %d: %s",
+					c.Name(), c.N, c.NCPU, c.BSize, c.R, c.Start, c.Start+c.R, c.J*c.BSize, fails[i][key].Info),
+					map[string]interface{}{"case": c, "setting": key[strings.Index(key, "/")+1:], "generator": "genLarge in /verif/harness/c07/inputs_large.go"})
+			}
+		}
+
+		r.Add("states", int64(len(chosen)))
+		r.Add("transitions", st.compiles)
+		r.Add("traces_validated_against_impl", st.compiles)
+		r.Add("evaluations", st.dumpChecks+st.rejectChecks+st.crossChecks)
+		r.Add("distinct_nontrivial", straddling)
+		r.Set("large_min_bucket_size", minBucket)
+		r.Set("large_min_bucket_size_source", how)
+		r.Set("large_host_cpus", host)
+		r.Set("large_grid_points", len(all))
+		r.Set("large_grid_points_run", len(chosen))
+		r.Set("large_grid_points_infeasible", infeasible)
+		r.Set("large_grid_exhaustive", len(chosen) == len(all))
+		r.Set("large_compiles", st.compiles)
+		r.Set("large_cases_with_run_across_cut", straddling)
+		addRule(fmt.Sprintf("(b) large files: N = %d*k + delta records (delta -2..+2), all keys distinct except a run of r in {1,2,3} equal keys ending o in -2..+2 records after the j-th nominal bucket cut (j = 1..k), written in scattered order; k in {1,2} with the host's %d CPUs (up to 3 buckets; settings: CDB, batches with default size and with size 20000, builder with v1 and v2 keys in quick / one of them, alternating, in thorough), and k = c with the compiling subprocess restricted to c in {2,3} CPUs so that the loader's last-bucket branch is taken (one builder setting, alternating). %d grid points (%d more are infeasible: the run would leave the data), %d run in this tier. Oracle as in (a). Non-trivial = the nominal cut falls strictly inside the run of equal keys.",
+			minBucket, host, len(all), infeasible, len(chosen)))
+	}
+	return compute, record
 }
